@@ -14,8 +14,23 @@ rng = random.Random(req["seed"])
 install_patches()
 
 
+def _full(r, depth=0):
+    """Text of a resource representation that contains EVERY bound argument.  repr() of the new-style abstract operators
+    omits arguments that are not part of the short print form (e.g. work_wires / work_wire_type of MultiControlledX),
+    although they are part of the representation's identity (__hash__/__eq__); so the argument dict is walked instead."""
+    args = getattr(r, "arguments", None)
+    if isinstance(args, dict) and depth < 8:
+        return f"{getattr(r, 'name', type(r).__name__)}(" + ", ".join(f"{k}={_full(v, depth + 1)}" for k, v in args.items()) + ")"
+    if isinstance(r, dict) and depth < 8:
+        return "{" + ", ".join(sorted(f"{_full(k, depth + 1)}: {_full(v, depth + 1)}" for k, v in r.items())) + "}"
+    if isinstance(r, (list, tuple)) and depth < 8:
+        return "[" + ", ".join(_full(v, depth + 1) for v in r) + "]"
+    return repr(r)
+
+
 def canon(r):
-    t = re.sub(r", weak_type=True", "", repr(r))
+    t = re.sub(r", weak_type=True", "", _full(r))
+    t = re.sub(r" at 0x[0-9a-f]+", "", t)
     t = re.sub(r"\b(int64|int32|float64|float32|complex128|complex64|bool)\b", "num", t)
     t = t.replace("defaultdict(<class 'int'>, ", "(")      # Counter-like containers print differently from plain dicts
     return " ".join(sorted(re.findall(r"[A-Za-z_0-9\.]+", t)))
@@ -55,6 +70,17 @@ def _templates():
     add("QROM", lambda: qp.QROM(["01", "11", "10"], control_wires=[0, 1], target_wires=[2, 3], work_wires=None))
     add("GroverOperator[3]", lambda: qp.GroverOperator(wires=[0, 1, 2]))
     add("BasisRotation", lambda: qp.BasisRotation(wires=[0, 1, 2], unitary_matrix=np.array([[0, 1, 0], [1, 0, 0], [0, 0, 1.0]])))
+    # ControlledQubitUnitary with several controls and each work-wire type (the inner multi-controlled X gates inherit the type)
+    import math as _m
+    U1 = np.exp(0.4j) * np.array([[_m.cos(0.35), -_m.sin(0.35) * np.exp(0.3j)], [_m.sin(0.35) * np.exp(-0.8j), _m.cos(0.35) * np.exp(-0.5j)]])
+    add("CQU[3c,1w zeroed]", lambda: qp.ControlledQubitUnitary(U1, wires=[0, 1, 2, 3], work_wires=[4], work_wire_type="zeroed"))
+    add("CQU[3c,1w borrowed]", lambda: qp.ControlledQubitUnitary(U1, wires=[0, 1, 2, 3], work_wires=[4], work_wire_type="borrowed"))
+    add("CQU[4c,2w zeroed,cv]", lambda: qp.ControlledQubitUnitary(U1, wires=[0, 1, 2, 3, 4], control_values=[1, 0, 1, 1], work_wires=[5, 6], work_wire_type="zeroed"))
+    add("CQU[2c,0w]", lambda: qp.ControlledQubitUnitary(U1, wires=[0, 1, 2]))
+    # Select at the boundary sizes of its unary-iteration resource formulas (K = 2^(c-2), 2^(c-2)+1, 2^(c-1), 2^c)
+    for c_, K_ in ((2, 1), (3, 2), (3, 3), (3, 4), (4, 4), (3, 8)):
+        add(f"Select[c={c_},K={K_},not partial]", lambda c_=c_, K_=K_: qp.Select([[qp.Z, qp.S, qp.X, qp.T, qp.Y, qp.Hadamard, qp.SX, qp.Z][i](9) for i in range(K_)],
+                                                                                control=list(range(c_)), work_wires=[10 + i for i in range(max(c_ - 1, 1))], partial=False))
     return T
 
 
